@@ -20,6 +20,7 @@ import drv_earth
 import drv_sphere
 import drv_precession
 import drv_sunearth
+import drv_geocentric
 
 YMIN, YMAX = -4712, 6000
 
@@ -659,4 +660,29 @@ def plan_C08(tier, seed):
         assumptions=["coarse RA tolerance 0.025 deg (0.02 deg of longitude projected on the equator)"])
 
 
-PLANS = {"C08": plan_C08, "C06": plan_C06, "C05": plan_C05, "C18": plan_C18, "C11": plan_C11, "C07": plan_C07, "C14": plan_C14, "C15": plan_C15, "C13": plan_C13, "C12": plan_C12, "C17": plan_C17, "C02": plan_C02, "C03": plan_C03, "C04": plan_C04, "C10": plan_C10, "C01": plan_C01, "C16": plan_C16, "C19": plan_C19}
+def _nt_c09(ev):
+    return (ev["k"], ev.get("pl"), ev.get("tf"), json.dumps(ev.get("el")))
+
+
+def plan_C09(tier, seed):
+    T = ("Trace_Geocentric", "Trace.cfg")
+    npl, per, nmin = (10, 56, 4) if tier == "quick" else (32, 3300, 16)
+    sh = [Shard("planets_%02d" % i, drv_geocentric.gen_planets, dict(seed=seed, shard=i, n=per), *T) for i in range(npl)]
+    sh += [Shard("pluto_%02d" % i, drv_geocentric.gen_pluto, dict(seed=seed, shard=i, n=per * 4), *T) for i in range(max(1, npl // 8))]
+    sh += [Shard("minor_%02d" % i, drv_geocentric.gen_minor, dict(seed=seed, shard=i, n=per * 6), *T) for i in range(nmin)]
+    return dict(
+        mc=[MC("MC_Octa", "MC_Octa.cfg", workers=8, heap="2g", note="rotation/dot-product algebra of Sphere.tla on lattice directions"),
+            MC("MC_Bisect", "MC_Bisect.cfg", workers=2, heap="1g", note="bisection used by kepler_equation")],
+        shards=sh, level="model_checking", exhaustive=False, nontrivial=_nt_c09,
+        rule="7 planets x epochs uniform in -2000..4000: Earth(t) and planet(t - tau) heliocentric vectors from the library (tau from "
+             "the fixed point tau = 0.0057755183 |P - E|, checked by the spec), returned (ra, dec) rotated to the ecliptic with the "
+             "library's true obliquity must point along P - E within 0.02 deg; elongation vs the apparent Sun; ranges; caller's "
+             "Epoch unchanged. Pluto 1885-2099 in the J2000 equator with Sun.rectangular_coordinates_j2000 (1e-4 deg). Minor "
+             "bodies: q 0.1-30 AU, e from a ladder incl. 0.979999, 0.98, 0.985, 0.99, 0.999 and exactly 1.0, random orientation, "
+             "+-50 yr around perihelion: the heliocentric point H = delta u - S implied by the returned direction (delta from the "
+             "orbital-plane equation) must lie in the plane, on the conic, and at the place Kepler's / Barker's equation assigns "
+             "to t - tau - T - all as polynomial identities evaluated by TLC.",
+        assumptions=["minor-body cases whose line of sight lies within 0.06 deg of the orbital plane are skipped (the plane equation cannot fix the distance)"])
+
+
+PLANS = {"C09": plan_C09, "C08": plan_C08, "C06": plan_C06, "C05": plan_C05, "C18": plan_C18, "C11": plan_C11, "C07": plan_C07, "C14": plan_C14, "C15": plan_C15, "C13": plan_C13, "C12": plan_C12, "C17": plan_C17, "C02": plan_C02, "C03": plan_C03, "C04": plan_C04, "C10": plan_C10, "C01": plan_C01, "C16": plan_C16, "C19": plan_C19}
